@@ -6,6 +6,7 @@ frame for CALL), so every compile function between the top level and the emitter
 application compiled with flag `tail` ends in `call_op(tail)`.
 """
 
+P = ['C04']
 PRELUDE = r'''
 use crate::vm::heap::Heap;
 
@@ -75,28 +76,38 @@ impl vstd::std_specs::convert::FromSpecImpl<OpCode> for VCell {
 #[verifier::external_body]
 pub proof fn axiom_into_self() ensures <VCell as vstd::std_specs::convert::IntoSpec<VCell>>::obeys_into_spec(),
     forall|v: VCell| #[trigger] <VCell as vstd::std_specs::convert::IntoSpec<VCell>>::into_spec(v) == v {}
-/// Lambda::emit (lambda.rs): `self.bc.push(vcell.into())`
-pub assume_specification<T: Into<VCell>> [Lambda::emit] (l: &mut Lambda, v: T)
-    ensures <T as vstd::std_specs::convert::IntoSpec<VCell>>::obeys_into_spec() ==> final(l).bc@ == old(l).bc@.push(<T as vstd::std_specs::convert::IntoSpec<VCell>>::into_spec(v)),
-            final(l).bc@.len() == old(l).bc@.len() + 1, final(l).bc@.subrange(0, old(l).bc@.len() as int) == old(l).bc@;
 pub assume_specification [VCell::ptr] (n: usize) -> (r: VCell) ensures r == VCell::Ptr(n);
 pub assume_specification [Heap::maybe_put_cell] (h: &mut Heap, c: &Cell) -> (r: VCell);
+// helpers of the compile functions whose results the contracts say nothing about
+/// put_cell answers a pointer: an immediate is boxed by Heap::put (heap.rs: `if vcell.is_ptr() { vcell } else { self.put(vcell) }`)
+pub assume_specification [Heap::put_cell] (h: &mut Heap, c: &Cell) -> (r: VCell) ensures r is Ptr;
+pub assume_specification<T: Into<VCell> + Clone> [Heap::put] (h: &mut Heap, v: T) -> (r: VCell);
+pub assume_specification [Cell::is_primitive_symbol] (c: &Cell) -> (r: bool);
+pub assume_specification [Cell::is_symbol] (c: &Cell) -> (r: bool);
+pub assume_specification [Cell::is_vector] (c: &Cell) -> (r: bool) ensures r == (*c is Vector);
+pub assume_specification [Cell::as_vector] (c: &Cell) -> (r: Option<&Vec<Cell>>) ensures (*c is Vector) ==> r is Some;
+pub assume_specification [Cell::is_unquote] (c: &Cell) -> (r: bool);
+pub assume_specification [Cell::is_quasiquote] (c: &Cell) -> (r: bool);
+/// an argument's index is below the argument count (binding_location searches self.args)
+pub assume_specification [Lambda::binding_location] (l: &Lambda, sym: &VCell) -> (r: crate::vm::environment::BindingLocation)
+    ensures r matches crate::vm::environment::BindingLocation::Argument(n) ==> n < l.args@.len();
+pub assume_specification<T: Into<usize>> [crate::vm::environment::GlobalEnvironment::get_binding] (g: &mut crate::vm::environment::GlobalEnvironment, sym: T) -> (r: usize);
+pub assume_specification<T: Into<usize>> [VCell::env_slot] (slot: T) -> (r: VCell);
+pub assume_specification [VCell::void] () -> (r: VCell);
+pub assume_specification<T: Into<Vec<VCell>>> [VCell::vector] (x: T) -> (r: VCell);
+pub assume_specification [VCell::as_ptr] (c: &VCell) -> (r: Result<usize, Error>) ensures (*c is Ptr) ==> r is Ok;
+pub assume_specification [crate::vm::transform::Transform::try_new] (expr: &Cell) -> (r: Result<crate::vm::transform::Transform, Error>);
+pub assume_specification [crate::vm::transform::Transform::keyword] (t: &crate::vm::transform::Transform) -> (r: &Cell);
 
 // ---------------------------------------------------------------- assumed contracts: the compile functions not under contract
 // (bodies outside what Verus ingests: closures capturing &mut self in compile_lambda, ...).  Only the frame is assumed:
 // they append to the bytecode.  Nothing is assumed about the tail flag.
-pub assume_specification [Vm::compile_define] (vm: &mut Vm, lambda: &mut Lambda, expr: &Cell) -> (r: Result<(), Error>)
-    ensures r is Ok ==> extends(*old(lambda), *final(lambda));
-pub assume_specification [Vm::compile_define_syntax] (vm: &mut Vm, lambda: &mut Lambda, expr: &Cell) -> (r: Result<(), Error>)
-    ensures r is Ok ==> extends(*old(lambda), *final(lambda));
-pub assume_specification [Vm::compile_lambda] (vm: &mut Vm, iof: &mut Lambda, expr: &Cell, is_define_special: bool) -> (r: Result<(), Error>)
-    ensures r is Ok ==> extends(*old(iof), *final(iof));
 pub assume_specification [Vm::compile_quasiquote] (vm: &mut Vm, lambda: &mut Lambda, expr: &Cell, depth: usize) -> (r: Result<(), Error>)
     ensures r is Ok ==> extends(*old(lambda), *final(lambda));
 pub assume_specification [Vm::compile_set] (vm: &mut Vm, lambda: &mut Lambda, tail: bool, expr: &Cell) -> (r: Result<(), Error>)
     ensures r is Ok ==> extends(*old(lambda), *final(lambda));
-pub assume_specification [Vm::compile_symbol_expression] (vm: &mut Vm, lambda: &mut Lambda, sym: &Cell) -> (r: Result<(), Error>)
-    ensures r is Ok ==> extends(*old(lambda), *final(lambda));
+pub assume_specification [Vm::compile_lambda] (vm: &mut Vm, iof: &mut Lambda, expr: &Cell, is_define_special: bool) -> (r: Result<(), Error>)
+    ensures r is Ok ==> extends(*old(iof), *final(iof));
 /// macro expansion before compilation: some function of the machine and the datum
 pub uninterp spec fn transformed(vm: Vm, e: Cell) -> Cell;
 pub assume_specification [Vm::transform] (vm: &mut Vm, expr: &Cell) -> (r: Result<Cell, Error>)
@@ -112,14 +123,32 @@ pub proof fn lemma_extends_trans(a: Lambda, b: Lambda, c: Lambda) requires exten
 }
 '''
 
-P = ['C04']
 NODEC = '#[verifier::exec_allows_no_decreases_clause]'
 EXT = (P, 'r is Ok ==> extends(*old(lambda), *final(lambda))')
 
 UNITS = [{
+    # the two Lambda methods the compile contracts rest on, verified against their bodies
+    'name': 'lambda',
+    'file': 'src/vm/lambda.rs',
+    'uses_types': ['VCell', 'Lambda'],
+    'prelude': '''/// std: a Vec of a non-zero-sized type never holds more than isize::MAX elements (its allocation is at most isize::MAX bytes)
+#[verifier::external_body]
+pub proof fn axiom_vec_len(v: &Vec<VCell>) ensures v@.len() <= isize::MAX {}''',
+    'fns': {
+        'impl Lambda::emit': {
+            'props': P,
+            'ensures': [
+                (P, '<T as vstd::std_specs::convert::IntoSpec<VCell>>::obeys_into_spec() ==> final(self).bc@ == old(self).bc@.push(<T as vstd::std_specs::convert::IntoSpec<VCell>>::into_spec(vcell))'),
+                (P, 'final(self).bc@.len() == old(self).bc@.len() + 1 && final(self).bc@.subrange(0, old(self).bc@.len() as int) == old(self).bc@'),
+                (P, 'final(self).args == old(self).args'),
+            ],
+        },
+        'impl Lambda::argc': {'props': P, 'body_start': 'proof { axiom_vec_len(&self.args); }', 'ensures': [(P, 'r == self.args@.len()'), (P, 'r <= isize::MAX')]},
+    },
+}, {
     'name': 'compile',
     'file': 'src/vm/compile.rs',
-    'uses_types': ['CellT', 'OpCodeT', 'VCell', 'Error', 'Heap', 'Lambda'],
+    'uses_types': ['CellT', 'OpCodeT', 'VCell', 'Error', 'Heap', 'Lambda', 'BindingLocation', 'GlobalEnvironment', 'Transform'],
     'prelude': PRELUDE,
     'fns': {
         # the emitter: an application compiled in tail position ends in TCALL, otherwise in CALL
@@ -210,6 +239,10 @@ UNITS = [{
                         (P, 'r is Ok && if_form(*expr) ==> if_compiled(*expr, tail, *old(lambda), *final(lambda))')],
         },
         'impl Vm::compile_quote': {'props': P, 'ensures': [EXT]},
+        # frame only: these append to the bytecode (their tail behaviour: they never emit a call themselves)
+        'impl Vm::compile_define': {'props': P, 'attrs': NODEC, 'ensures': [EXT]},
+        'impl Vm::compile_define_syntax': {'props': P, 'ensures': [EXT]},
+        'impl Vm::compile_symbol_expression': {'props': P, 'ensures': [EXT]},
         # entry: the flag reaches the expression that is actually compiled (the macro-expanded one)
         'impl Vm::compile': {
             'props': P,
